@@ -257,6 +257,33 @@ class C15(Check):
     assumptions = ['libc printf("%d"/"%lld"), atoll, sscanf("%x"), strpbrk behave as the reference functions of JsonModel.v (print_dec, ref_atoll, hexn, find_one_of)',
                    'Variant/HashMap/List/String behave as value trees with an insertion-ordered map (checked by the dump of every parsed tree)']
 
+    def run_impl(self, cases, tag='impl'):
+        """as Check.run_impl, but a stream on which the implementation crashes hundreds of times (every crash restarts
+        the harness) is run in pieces; after 1200 crashes the rest of the stream is not run (marked, ignored by judge)"""
+        import vf
+        rundir = os.path.join(vf.BUILD, self.id, 'run')
+        res, crashes, i, total, small = [], {}, 0, 0, False
+        while i < len(cases):
+            size = 300 if small else 20000
+            chunk = cases[i:i + size]
+            if total > 1200:
+                res += [['! not-run'] for _ in chunk]
+            else:
+                try:
+                    r, c = vf.run_exe_on_cases(self.exes['impl'], chunk, rundir, tag, is_impl=True, per_case_timeout=self.per_case_timeout)
+                except RuntimeError:
+                    if small:
+                        raise
+                    small = True
+                    continue
+                res += r
+                for k, v in c.items():
+                    crashes[i + k] = v
+                total += len(c)
+                small = small or len(c) > 50
+            i += size
+        return res, crashes
+
     def nontrivial(self, case, obs):
         for l in case:
             t = l.split(' ')
@@ -293,6 +320,9 @@ class C15(Check):
         if kind == 'pstr':
             return ('pstr: the value of a valid JSON string literal differs from the RFC 8259 reference (escapes, surrogate pairs, UTF-8 bytes): '
                     'spec expects `%s`, implementation gives `%s`' % (exp[:200], got[:200]))
+        if kind == 'rt' and got.startswith('1 |'):
+            return ('rt: toString then parse gives an equal tree, but not the one the theorem parse_toString_roundtrip names (canon v: integers that fit '
+                    '32 bits come back as intType, everything else identical): expected `%s` got `%s`' % (exp[:200], got[:300]))
         if kind == 'rt':
             return 'rt: toString then parse does not give an equal tree (observation: equal flag | text, parse result): `%s`' % got[:300]
         return '%s: spec expects `%s`, implementation gives `%s`' % (kind, exp[:200], got[:200])
@@ -303,6 +333,8 @@ class C15(Check):
         failed = set()
         for i, (c, s, o) in enumerate(zip(cases, spec_obs, impl_obs)):
             crash = [j for j, l in enumerate(o) if l.startswith('! ')]
+            if o == ['! not-run']:
+                continue
             if crash:
                 j = crash[0]
                 opl = c[min(max(j - 1, 0), len(c) - 1)] if c else '?'
